@@ -298,16 +298,33 @@ theorem greater_incomplete_err (e : Sev) : ¬ NoErr (e.greater .incomplete) := b
   cases e <;> simp [NoErr, Sev.greater, Sev.toInt]
 
 /-! ### skipTo / CheckRemainingInput -/
-theorem skipTo_spec (ds : List Byte) (c : Byte) (l r : List Byte) (hc : isDelim ds c = false) :
-    ∃ m rest, r = m ++ rest ∧ (∀ b ∈ m, isDelim ds b = false) ∧
-      ((rest = [] ∧ ∃ c', isDelim ds c' = false ∧ skipTo ds c l r = (c', m.reverse ++ l, [], true)) ∨
-       (∃ d t, rest = d :: t ∧ isDelim ds d = true ∧ skipTo ds c l r = (d, d :: (m.reverse ++ l), t, false))) := by
+theorem delimAt_false {cfg : LexCfg} {ds : List Byte} {c : Byte} (h : delimAt cfg ds c = false) : isDelim ds c = false := by
+  simp [delimAt] at h; exact h.2
+
+theorem delimAt_ne_zero {cfg : LexCfg} {ds : List Byte} {c : Byte} (h0 : c ≠ 0) : delimAt cfg ds c = isDelim ds c := by
+  simp [delimAt, h0]
+
+theorem delimAt_strict {cfg : LexCfg} (h : cfg.nulIsDelim = false) (ds : List Byte) (c : Byte) : delimAt cfg ds c = isDelim ds c := by
+  simp [delimAt, h]
+
+theorem digit_not_delimAt (cfg : LexCfg) {c : Byte} (h : isDigit c = true) : delimAt cfg attrDelims c = false := by
+  have h0 : c ≠ 0 := by simp [isDigit] at h; bomega
+  rw [delimAt_ne_zero h0]; exact digit_not_delim h
+
+theorem space_not_delimAt (cfg : LexCfg) {c : Byte} (h : isSpace c = true) : delimAt cfg attrDelims c = false := by
+  have h0 : c ≠ 0 := by intro h0; subst h0; revert h; decide
+  rw [delimAt_ne_zero h0]; exact space_not_delim h
+
+theorem skipTo_spec (cfg : LexCfg) (ds : List Byte) (c : Byte) (l r : List Byte) (hc : delimAt cfg ds c = false) :
+    ∃ m rest, r = m ++ rest ∧ (∀ b ∈ m, delimAt cfg ds b = false) ∧
+      ((rest = [] ∧ ∃ c', delimAt cfg ds c' = false ∧ skipTo cfg ds c l r = (c', m.reverse ++ l, [], true)) ∨
+       (∃ d t, rest = d :: t ∧ delimAt cfg ds d = true ∧ skipTo cfg ds c l r = (d, d :: (m.reverse ++ l), t, false))) := by
   induction r generalizing c l with
   | nil => exact ⟨[], [], by simp, by simp, Or.inl ⟨rfl, c, hc, by simp [skipTo]⟩⟩
   | cons x t ih =>
-    by_cases hx : isDelim ds x = true
+    by_cases hx : delimAt cfg ds x = true
     · exact ⟨[], x :: t, by simp, by simp, Or.inr ⟨x, t, rfl, hx, by simp [skipTo, hx]⟩⟩
-    · have hx' : isDelim ds x = false := by simpa using hx
+    · have hx' : delimAt cfg ds x = false := by simpa using hx
       obtain ⟨m, rest, h1, h2, h3⟩ := ih x (x :: l) hx'
       refine ⟨x :: m, rest, by simp [h1], ?_, ?_⟩
       · intro b hb
@@ -328,7 +345,7 @@ theorem cri_delim (cfg : LexCfg) (l sp rest : List Byte) (d : Byte) (f sk : Bool
   have hd47 : d ≠ 47 := by
     intro h; subst h; revert hd; decide
   simp only [checkRemainingInput, IStream.clear, Bool.false_eq_true, if_false,
-    sepSkip_stop cfg l sp d rest sk hsp hdn hd47, peekC_good, hd, if_true]
+    sepSkip_stop cfg l sp d rest sk hsp hdn hd47, peekC_good, delimAt_of_isDelim cfg _ _ hd, if_true]
 
 /-! ### INTEGER tokens -/
 theorem splitSign_cases (t : List Byte) :
@@ -527,7 +544,7 @@ theorem showInt_spec (v : Int) : isInteger (showInt v) = true ∧ denoteInteger 
 
 
 /-- where the stream may legitimately rest after a value: at its end or in front of a delimiter -/
-def AtDelimOrEnd (right : List Byte) : Prop := right = [] ∨ ∃ d t, right = d :: t ∧ isDelim attrDelims d = true
+def AtDelimOrEnd (cfg : LexCfg) (right : List Byte) : Prop := right = [] ∨ ∃ d t, right = d :: t ∧ delimAt cfg attrDelims d = true
 
 /-- `CheckRemainingInput(in, err, type, ",)")`: either the severity is unchanged or an error is flagged; and when no
     error is flagged, only separators (blanks, and comments when they are skipped) were consumed and the stream rests at
@@ -538,7 +555,7 @@ theorem cri_char (cfg : LexCfg) (s : IStream) (e : Sev) (hb : s.bad = false) :
       (s.eof = true ∧ (checkRemainingInput cfg (some attrDelims) s e).1 = s) ∨
       (s.eof = false ∧ ∃ sp, Between cfg sp ∧ s.right = sp ++ (checkRemainingInput cfg (some attrDelims) s e).1.right ∧
         (checkRemainingInput cfg (some attrDelims) s e).1.left = sp.reverse ++ s.left ∧
-        AtDelimOrEnd (checkRemainingInput cfg (some attrDelims) s e).1.right)) := by
+        AtDelimOrEnd cfg (checkRemainingInput cfg (some attrDelims) s e).1.right)) := by
   obtain ⟨l, r, eof, fail, bad, sk⟩ := s
   simp only at hb
   subst hb
@@ -558,10 +575,10 @@ theorem cri_char (cfg : LexCfg) (s : IStream) (e : Sev) (hb : s.bad = false) :
       exact ⟨Or.inl (by triv), fun _ => Or.inr ⟨by triv, m, h3, by simpa using h1, h2, Or.inl (by triv)⟩⟩
     · subst hr he hf
       simp only [Bool.false_eq_true, if_false, peekC_good]
-      by_cases hd : isDelim attrDelims c = true
+      by_cases hd : delimAt cfg attrDelims c = true
       · simp only [hd, if_true]
         exact ⟨Or.inl (by triv), fun _ => Or.inr ⟨by triv, m, h3, h1, h2, Or.inr ⟨c, t, by triv, hd⟩⟩⟩
-      · have hd' : isDelim attrDelims c = false := by simpa using hd
+      · have hd' : delimAt cfg attrDelims c = false := by simpa using hd
         simp only [hd', Bool.false_eq_true, if_false]
         split <;> simp [greater_warning_err, greater_inputError_err]
 
@@ -570,7 +587,7 @@ theorem cri_char (cfg : LexCfg) (s : IStream) (e : Sev) (hb : s.bad = false) :
 theorem cri_left (cfg : LexCfg) (s : IStream) (e : Sev) (hb : s.bad = false) :
     ∃ lay g, (checkRemainingInput cfg (some attrDelims) s e).1.left = (lay ++ g).reverse ++ s.left ∧
       s.right = lay ++ g ++ (checkRemainingInput cfg (some attrDelims) s e).1.right ∧
-      Between cfg lay ∧ ∀ b ∈ g, isDelim attrDelims b = false := by
+      Between cfg lay ∧ ∀ b ∈ g, delimAt cfg attrDelims b = false := by
   obtain ⟨l, r, eof, fail, bad, sk⟩ := s
   simp only at hb
   subst hb
@@ -590,12 +607,12 @@ theorem cri_left (cfg : LexCfg) (s : IStream) (e : Sev) (hb : s.bad = false) :
       exact ⟨m, [], by simp, by simpa using h1, h3, by simp⟩
     · subst hr he hf
       simp only [Bool.false_eq_true, if_false, peekC_good]
-      by_cases hd : isDelim attrDelims c = true
+      by_cases hd : delimAt cfg attrDelims c = true
       · simp only [hd, if_true]
         exact ⟨m, [], by simp, by simpa using h1, h3, by simp⟩
-      · have hd' : isDelim attrDelims c = false := by simpa using hd
+      · have hd' : delimAt cfg attrDelims c = false := by simpa using hd
         simp only [hd', Bool.false_eq_true, if_false]
-        obtain ⟨g, rest, hg1, hg2, hg3⟩ := skipTo_spec attrDelims c (m.reverse ++ l) (c :: t) hd'
+        obtain ⟨g, rest, hg1, hg2, hg3⟩ := skipTo_spec cfg attrDelims c (m.reverse ++ l) (c :: t) hd'
         rcases hg3 with ⟨hrest, c', hc', hs⟩ | ⟨d, t', hrest, hdd, hs⟩
         · subst hrest
           refine ⟨m, g, ?_, ?_, h3, hg2⟩
@@ -914,12 +931,25 @@ theorem realCollect_append (r : List Byte) : (realCollect r).1 ++ (realCollect r
 /-- garbage in front of the delimiter is always reported (when comments are skipped, a `/` may open one and is not
     garbage) -/
 theorem cri_garbage (cfg : LexCfg) (l : List Byte) (c : Byte) (t : List Byte) (f sk : Bool) (e : Sev)
-    (hc : isSpace c = false) (hd : isDelim attrDelims c = false) (h47 : c ≠ 47) :
+    (hc : isSpace c = false) (hd : delimAt cfg attrDelims c = false) (h47 : c ≠ 47) :
     ¬ NoErr (checkRemainingInput cfg (some attrDelims) { left := l, right := c :: t, eof := false, fail := f, bad := false, skipws := sk } e).2 := by
   have hstop := sepSkip_stop cfg l [] c t sk (by simp) hc h47
   simp only [List.nil_append, List.reverse_nil] at hstop
   simp only [checkRemainingInput, IStream.clear, Bool.false_eq_true, if_false, hstop, peekC_good, hd]
   split <;> simp [greater_warning_err, greater_inputError_err]
+
+/-- the bytes that, standing where a REAL or reference value should be, the scanner leaves to `CheckRemainingInput` alone —
+    which may then report nothing: NUL where it is taken for a delimiter, and `/`, which may open a comment.  Empty once
+    the scanner itself reports a value that is not there (`reports`). -/
+def quietFirst (reports : Bool) (cfg : LexCfg) : List Byte :=
+  if reports then [] else if cfg.nulIsDelim then [0, 47] else [47]
+
+theorem quietFirst_spec {reports : Bool} {cfg : LexCfg} {c : Byte} (hr : reports = false) (hc : c ∉ quietFirst reports cfg)
+    (h44 : c ≠ 44) (h41 : c ≠ 41) : delimAt cfg attrDelims c = false ∧ c ≠ 47 := by
+  subst hr
+  cases hn : cfg.nulIsDelim <;> simp [quietFirst, hn] at hc
+  · exact ⟨by simp [delimAt, hn, isDelim, attrDelims, h44, h41], hc⟩
+  · exact ⟨by simp [delimAt, hn, isDelim, attrDelims, h44, h41, hc.1], hc.2⟩
 
 /-! ### entity references -/
 theorem getChar_good (l : List Byte) (c : Byte) (t : List Byte) (hc : isSpace c = false) :
